@@ -20,6 +20,7 @@
  *   FORK               fork(); the child continues with the script, the parent waits and exits
  *   TIME <t>           set the fake clock only
  *   VAL <name> <v>     set an interposed value source (pagefault, cpu, statm, var)
+<<<<<<< HEAD
  *   ARGFILL <d> <byte> <n> / ARGDUMP <d> <n>   (C09) fill / hex-dump the per-frame argument buffer of
  *                      frame mtd.idx+d (n bytes, may span the following frames' buffers)
  *   ADDR               (C09) -> "ADDR <address of f0> <the @BAD address>"
@@ -27,6 +28,12 @@
  *   SADDR <i>          (C09) -> "SADDR <address of string/object i>"
  *   OBJ <i> <word>...  (C09) define object i as these 8-byte words (numbers, @S<j>, @BAD)
  *   DUMPRAW            (C09) the raw byte stream of this thread's shm buffers -> "DUMPRAW <hex>"
+=======
+ *   SYNC               flush stdout (for a driver that talks to the harness interactively)     -> "SYNC"
+ *   SHMFAIL <n>        the next n shm_open(O_CREAT) calls fail with ENOSPC (allocate_shmem_buffer)  -> "SHMFAIL"
+ *   PSTATE             ring of the current thread -> "P nr_buf curr losts done [flag size]..."
+ *   BASE               address of f0 -> "BASE <addr>";   TID -> "TID <tid of the current thread>"
+>>>>>>> c03
  *   QUIT
  *
  * A call whose entry returned -1 (not hooked) must not be followed by X for that call:
@@ -43,6 +50,7 @@
 #include <fcntl.h>
 #include <pthread.h>
 #include <dirent.h>
+#include <dlfcn.h>
 #include <sys/mman.h>
 #include <sys/stat.h>
 #include <sys/wait.h>
@@ -82,6 +90,21 @@ int getrusage(int who, struct rusage *ru)
 int sched_getcpu(void)
 {
 	return verif_cpu;
+}
+
+/* allocation-failure injection: shm_open is what uftrace_shmem_open calls (utils/shmem.c) */
+static volatile int verif_shmfail;
+int shm_open(const char *name, int oflag, mode_t mode)
+{
+	static int (*real_shm_open)(const char *, int, mode_t);
+	if (!real_shm_open)
+		real_shm_open = dlsym(RTLD_NEXT, "shm_open");
+	if (verif_shmfail > 0 && (oflag & O_CREAT)) {
+		verif_shmfail--;
+		errno = ENOSPC;
+		return -1;
+	}
+	return real_shm_open(name, oflag, mode);
 }
 
 /* ------------------------------------------------------------------ traced "functions" */
@@ -351,6 +374,17 @@ static void do_op(struct drv *dv, char *line)
 			find_session();
 		dump_records(dv->tid);
 	}
+	else if (!strcmp(op, "PSTATE")) {
+		struct mcount_shmem *sh = &mtd.shmem;
+		int i;
+		printf("P %d %d %d %d", sh->nr_buf, sh->nr_buf ? sh->curr : -1, sh->losts, (int)sh->done);
+		for (i = 0; sh->buffer && i < sh->nr_buf; i++)
+			printf(" %u %u", sh->buffer[i]->flag, sh->buffer[i]->size);
+		printf("\n");
+	}
+	else if (!strcmp(op, "TID")) {
+		printf("TID %d\n", dv->tid);
+	}
 	else if (!strcmp(op, "TIME")) {
 		unsigned long long t;
 		sscanf(line, "%*s %llu", &t);
@@ -523,6 +557,20 @@ int main(void)
 			cur = atoi(line + 2);
 			ensure_thread(cur);
 			printf("T %d\n", cur);
+			continue;
+		}
+		if (!strncmp(line, "SYNC", 4)) {
+			printf("SYNC\n");
+			fflush(stdout);
+			continue;
+		}
+		if (!strncmp(line, "SHMFAIL", 7)) {
+			verif_shmfail = atoi(line + 7);
+			printf("SHMFAIL\n");
+			continue;
+		}
+		if (!strncmp(line, "BASE", 4)) {
+			printf("BASE %lu\n", (unsigned long)f0);
 			continue;
 		}
 		if (!strncmp(line, "STR ", 4)) {
